@@ -552,7 +552,7 @@ def resolve_consts(prog, t, depth=0):
     if k == "promoted":
         return promoted_term(prog, t[1], t[2])
     if k == "call":
-        return ("call", t[1], tuple(resolve_consts(prog, a, depth + 1) for a in t[2]), t[3])
+        return ("call", t[1], tuple(resolve_consts(prog, a, depth + 1) for a in t[2])) + tuple(t[3:])
     if k == "aggr":
         return ("aggr", t[1], t[2], tuple((f, resolve_consts(prog, x, depth + 1)) for f, x in t[3]))
     if k in ("tuple", "array"):
